@@ -94,6 +94,11 @@ func (k Keeper) ValidateValidatorStaking(ctx sdk.Ctx, validator types.Validator,
 	if amount.LT(sdk.NewInt(k.MinimumStake(ctx))) {
 		return types.ErrMinimumStake(k.codespace)
 	}
+	// the stake is kept and paid back as an int64 and its consensus power is reported to Tendermint as one:
+	// an amount beyond that would panic after the coins have moved
+	if !amount.IsInt64() {
+		return types.ErrStakeTooLarge(k.codespace)
+	}
 	if !k.authKeeper.HasCoins(ctx, sdk.Address(validator.Address), coin) {
 		return types.ErrNotEnoughCoins(k.codespace)
 	}
